@@ -110,6 +110,18 @@ _poll_dispatch_and_take_back_(struct qb_loop_item *item,
 				   pe->ufd.revents,
 				   pe->item.user_data);
 	if (res < 0) {
+		if (pe->state != QB_POLL_ENTRY_DELETED) {
+			/*
+			 * Not watched any more means out of the kernel's set
+			 * as well (unless the callback has closed it anyway):
+			 * otherwise a descriptor that stays ready keeps
+			 * waking us up for an entry that is gone.
+			 */
+			struct qb_poll_source *s =
+				(struct qb_poll_source *)pe->item.source;
+
+			(void)s->driver.del(s, pe, pe->ufd.fd, pe->install_pos);
+		}
 		_poll_entry_mark_deleted_(pe);
 	} else if (pe->state != QB_POLL_ENTRY_DELETED) {
 		pe->state = QB_POLL_ENTRY_ACTIVE;
